@@ -23,10 +23,10 @@ from rp2verif.common import Stats
 PROP = "C12"
 LEVEL = "fault_enumeration"
 
-KINDS = ("b", "I", "O", "T", "E", "h", "i", "o", "t", "f")
+KINDS = ("b", "I", "O", "T", "E", "h", "i", "o", "t", "f", "z")
 KIND_NAMES = {"b": "blank", "I": "IN", "O": "OUT", "T": "INTRA", "E": "TABLE END", "h": "header", "i": "IN row", "o": "OUT row", "t": "INTRA row",
-              "f": "IN row with crypto fee"}
-TABLE_OF = {"I": "in", "O": "out", "T": "intra", "i": "in", "o": "out", "t": "intra", "f": "in"}
+              "f": "IN row with crypto fee", "z": "row starting with the number 0"}
+TABLE_OF = {"I": "in", "O": "out", "T": "intra", "i": "in", "o": "out", "t": "intra", "f": "in", "z": "no table"}
 LAYOUT = S.canonical_layout()
 WIDTH = S.ncols(LAYOUT)
 
@@ -52,6 +52,9 @@ def kind_cells(kind: str, n: int) -> List[Any]:
         return [S.TABLE_END] + [None] * (WIDTH - 1)
     if kind == "h":
         return S.header_cells("in", LAYOUT, WIDTH)
+    if kind == "z":
+        # a row of figures whose first cell holds the NUMBER 0 (a hand-made totals / difference row): not blank, not a keyword, not a transaction
+        return [0] + S.row_cells("out", LAYOUT, good_row("out", n), WIDTH)[1:]
     if kind == "f":
         # an acquisition whose fee was paid in crypto: the parser models it as the acquisition plus an artificial fee-only disposal
         return S.row_cells("in", LAYOUT, dict(good_row("in", n), crypto_fee="0.01"), WIDTH)
@@ -516,7 +519,7 @@ def cli_cases(tier: str) -> List[Dict[str, Any]]:
             cases.append({"why": f"field fault outside the date window ({' '.join(opts)}): {case['class']} at {case['asset']}.{case['table']}.{case['field']}", "sheets": faulty_sheets(case),
                           "ini": good_ini, "opts": opts, "fault": case})
     # (e2) structure faults (single edits of a well-formed sheet that the acceptor says must be rejected), placed in the second asset's sheet
-    struct = ["IhiEOho", "IhiEIhiE", "IhIiE", "iIhiE", "EIhiE", "IiE", "IhioE", "IhiEbo", "OhoE", "IhE", "IhiEOhoEThtEh", "IhiEOhoEThtEbI", "IhibiE"]
+    struct = ["IhiEOho", "IhiEIhiE", "IhIiE", "iIhiE", "EIhiE", "IiE", "IhioE", "IhiEbo", "OhoE", "IhE", "IhiEOhoEThtEh", "IhiEOhoEThtEbI", "IhibiE", "IhiEz", "zIhiE", "IhiEzOhoE"]
     for s in struct:
         assert acceptor(tuple(s))[0] == "reject", s
         sheets = dict(good)
@@ -697,7 +700,7 @@ def main(tier: str, budget_s: Optional[float] = None) -> int:
         "evaluations": total.get("evaluations"),
         "distinct_nontrivial": total.get("distinct_nontrivial"),
         "rule": (
-            "fault enumeration: (a1) every sequence over the 9 row kinds up to the length bound and (a2) every single (thorough: pair of) edit "
+            "fault enumeration: (a1) every sequence over the 11 row kinds up to the length bound and (a2) every single (thorough: pair of) edit "
             "(delete / replace / insert a row of each kind at each position) of well-formed base sheets, judged by a reference acceptor of the "
             "documented grammar; (b) every documented field fault class at every row x field of a 2-asset base input; (c) every config fault; "
             "(d,e) one instance of every fault class per table and asset, structure faults, every config and command-line fault through the real "
